@@ -143,6 +143,32 @@ func msgCatalogue() []*eng.Case {
 		}
 		add(cn, "p", eng.ZeroD(cn), good)
 		add(cn, "p", eng.ZeroD(cn), bad)
+		// ...and through the schema's own Validate entry point
+		add(cn, "v", eng.ZeroD(cn), eng.VNil())
+	}
+	// every top-level entry point builds its own execution context (and names the global formatter itself): the
+	// remaining (schema kind, mode) pairs — Bool / Struct / Ptr in Validate, Preprocess in both modes
+	{
+		// (in Validate `false` is the absent value: only False() can fail there)
+		tb := tst("booleq")
+		tb.Op, tb.Arg = "false", eng.D{K: "b", B: false}
+		add(prim("bool", tb), "v", eng.D{K: "b", B: true}, eng.VNil())
+		t := tst("min")
+		t.N = 5
+		sv := &eng.Node{Kind: "struct", Fields: []eng.Field{{Key: "a", GoName: "A", S: prim("str", t)}}}
+		add(sv, "v", eng.D{K: "st", FS: []eng.DF{{Name: "A", D: str("x")}}}, eng.VNil())
+		nn := eng.TOpts{}
+		id++
+		pv := &eng.Node{Kind: "ptr", Elem: &eng.Node{Kind: "prim", PK: "int"}, NotNil: &nn, NNID: id}
+		add(pv, "v", eng.D{K: "p"}, eng.VNil())
+		t2 := tst("cmp")
+		t2.Op, t2.Arg = "gt", eng.D{K: "i", NK: "int", I: 5}
+		id++
+		add(&eng.Node{Kind: "pre", PreKind: "atoi", PreID: id, Elem: prim("int", t2)}, "p", eng.D{K: "i", NK: "int"}, eng.VStr("3"))
+		t3 := tst("cmp")
+		t3.Op, t3.Arg = "gt", eng.D{K: "i", NK: "int", I: 5}
+		id++
+		add(&eng.Node{Kind: "pre", PreKind: "vid", PreID: id, Elem: prim("int", t3)}, "v", eng.D{K: "i", NK: "int", I: 3}, eng.VNil())
 	}
 	return out
 }
